@@ -15,6 +15,15 @@ def run_threaded(mod, shard, out_path, n):
     import threading  # noqa: PLC0415
 
     sys.setswitchinterval(1e-6)
+    # n threads share one GIL: run the copy with workload sizes scaled down (this process only)
+    sizes = getattr(mod, "SIZES", None)
+    tier = shard.get("tier")
+    if isinstance(sizes, dict) and tier in sizes:
+        cur = sizes[tier]
+        if isinstance(cur, dict):
+            sizes[tier] = {k: (max(1, int(v * 0.3)) if isinstance(v, int) and not isinstance(v, bool) and v is not None else v) for k, v in cur.items()}
+        elif isinstance(cur, int):
+            sizes[tier] = max(1, int(cur * 0.3))
     results, errors = [None] * n, []
     start = threading.Barrier(n)
 
